@@ -18,18 +18,6 @@ theorem mapAt_getD (I : List Nat) (f : Rat → Rat) (v : List Rat) (j : Nat) (hj
   unfold mapAt
   simp [List.getD_eq_getElem?_getD, hj]
 
-theorem mem_zipIdx_map {α β} (l : List α) (g : α × Nat → β) (y : β) :
-    y ∈ l.zipIdx.map g ↔ ∃ k, ∃ h : k < l.length, y = g (l[k], k) := by
-  simp only [List.mem_map]
-  constructor
-  · rintro ⟨⟨a, k⟩, hm, rfl⟩
-    have := List.mem_zipIdx_iff_getElem?.mp hm
-    obtain ⟨h, h2⟩ := List.getElem?_eq_some_iff.mp this
-    simp only at h h2
-    exact ⟨k, h, by rw [h2]⟩
-  · rintro ⟨k, h, rfl⟩
-    exact ⟨(l[k], k), List.mem_zipIdx_iff_getElem?.mpr (List.getElem?_eq_getElem h), rfl⟩
-
 theorem inBounds_single (a b : Rat) (y : Vec) : InBounds [a] [b] y ↔ a ≤ y 0 ∧ y 0 ≤ b := by
   unfold InBounds
   constructor
@@ -131,60 +119,22 @@ theorem widened_upper (u s mx nrm : Rat) (hn : 0 < nrm) (hs : 0 ≤ s) (hsm : s 
   have := Rat.mul_le_mul_of_nonneg_right h1 hinv
   grind
 
-/-! ### the label of the scale's mapping row -/
+/-! ### dispatch variables -/
 
-theorem foldl_max_ge (l : List Nat) (a : Nat) : a ≤ l.foldl max a ∧ ∀ v ∈ l, v ≤ l.foldl max a := by
-  induction l generalizing a with
-  | nil => simp
-  | cons b bs ih =>
-    simp only [List.foldl_cons, List.mem_cons]
-    obtain ⟨h1, h2⟩ := ih (max a b)
-    refine ⟨by omega, ?_⟩
-    rintro v (rfl | hv)
-    · omega
-    · exact h2 v hv
-
-theorem foldl_max_mem (l : List Nat) (a : Nat) : l.foldl max a = a ∨ l.foldl max a ∈ l := by
-  induction l generalizing a with
-  | nil => simp
-  | cons b bs ih =>
-    simp only [List.foldl_cons, List.mem_cons]
-    rcases ih (max a b) with h | h
-    · rw [h]
-      rcases Nat.le_total a b with hab | hab
-      · right; left; omega
-      · left; omega
-    · right; right; exact h
-
-theorem le_maxIndex (M : List MapRow) (m : MapRow) (hm : m ∈ M) : m.var ≤ maxIndex M :=
-  (foldl_max_ge (M.map (·.var)) 0).2 _ (List.mem_map.mpr ⟨m, hm, rfl⟩)
-
-theorem maxIndex_mem (M : List MapRow) (hne : M ≠ []) : ∃ m ∈ M, m.var = maxIndex M := by
-  rcases foldl_max_mem (M.map (·.var)) 0 with h | h
-  · cases M with
-    | nil => exact absurd rfl hne
-    | cons m ms =>
-      have := le_maxIndex (m :: ms) m (by simp)
-      unfold maxIndex at this ⊢
-      rw [h] at this ⊢
-      exact ⟨m, by simp, by omega⟩
-  · obtain ⟨m, hm, hv⟩ := List.mem_map.mp h
-    exact ⟨m, hm, hv⟩
-
-/-- the label `max + 1` is the position of the scale variable iff the last base variable has a mapping row -/
-theorem lastVarMapped_iff (base : AssetProblem) (hn : 0 < base.n) (hv : ∀ m ∈ base.mapping, m.var < base.n)
-    (hne : base.mapping ≠ []) :
-    LastVarMapped base ↔ ∃ m ∈ base.mapping, m.var + 1 = base.n := by
-  unfold LastVarMapped
+theorem mem_dispVars (M : List MapRow) (d : Nat) :
+    d ∈ dispVars M ↔ ∃ m ∈ M, m.kind = .d ∧ m.var = d := by
+  unfold dispVars
+  rw [mem_eraseDups]
+  simp only [List.mem_map, List.mem_filter, beq_iff_eq]
   constructor
-  · intro h
-    obtain ⟨m, hm, he⟩ := maxIndex_mem base.mapping hne
-    exact ⟨m, hm, by omega⟩
-  · rintro ⟨m, hm, he⟩
-    have h1 := le_maxIndex base.mapping m hm
-    obtain ⟨m', hm', he'⟩ := maxIndex_mem base.mapping hne
-    have := hv m' hm'
-    omega
+  · rintro ⟨m, ⟨hm, hk⟩, rfl⟩; exact ⟨m, hm, hk, rfl⟩
+  · rintro ⟨m, hm, hk, rfl⟩; exact ⟨m, ⟨hm, hk⟩, rfl⟩
+
+theorem dispVars_lt (base : AssetProblem) (hmap : ∀ m ∈ base.mapping, m.var < base.n) :
+    ∀ d ∈ dispVars base.mapping, d < base.n := by
+  intro d hd
+  obtain ⟨m, hm, _, rfl⟩ := (mem_dispVars _ _).mp hd
+  exact hmap m hm
 
 /-! ### structured vs flat: concatenation of asset lists -/
 
